@@ -21,7 +21,12 @@ RULE = (
     "only and many 1-element registers, no parameters) and a random degenerate stream of the same kinds (purely classical "
     "circuits carry SetBits ops); "
     "plus @guppy.pytket stubs (a fixed list of single-deviation stubs incl. `@owned` qubits, and random near-misses: wrong count/order/flags/return/body). "
-    "non-trivial = at least two qubit registers or two symbols or one bit (load), any stub case; distinct by "
+    "plus HISTORIES in one process: a fixed list and random sessions of events new/extend/load/stub/del over circuit OBJECTS "
+    "(one object loaded, extended by gates/measurements/qubits/bits/registers/symbols and loaded again under the same or a new "
+    "name; objects deleted + gc.collect() and a new object allocated at the same id(); one circuit loaded twice; two objects "
+    "interleaved; use_arrays mixed) where every load is compared with the object's state at that moment, including the gate "
+    "multiset of the inserted circuit function. "
+    "non-trivial = at least two loads (history), at least two qubit registers or two symbols or one bit (load), any stub case; distinct by "
     "canonical case description"
 )
 ASSUMPTIONS = [
@@ -46,12 +51,13 @@ MANIFEST = {
     "circuit shapes: the i-th passed qubit (flattened over register arrays in lexicographic register order) feeds the circuit's "
     "i-th qubit and returns at position i; the parameter passed in position k is bound to the symbol of lexicographic rank k; "
     "outputs are one opaque bool per classical bit then the qubits; a stub is accepted iff its inputs/output equal the circuit's "
-    "shape; circuits with units outside complete registers are rejected when arrays are used (after fix da0a7d6). Tie T-obj: "
+    "shape; circuits with units outside complete registers are rejected when arrays are used (after fix da0a7d6); in any session "
+    "(history of loads of mutable circuit objects) each load's result is that of its own snapshot. Tie T-obj: "
     "random pytket circuits are loaded and lowered by the real code, signature and complete wiring are read from the Hugr and "
     "compared with the Lean driver and with an independent end-to-end oracle using tket's own port labels.",
     "level_note": "Partial: Tk2Circuit and state semantics are not modelled; the inner function's port order is an assumption read "
     "from tket's metadata on every case. Two local API-drift shims (Tk2Circuit over CompilationState, Node.metadata) are needed to run "
-    "compile_outer on the installed tket 0.15.9/hugr 0.18.6. Correspondence is sampling (quick ~220, thorough ~4050 cases, boundary shapes always included).",
+    "compile_outer on the installed tket 0.15.9/hugr 0.18.6. Correspondence is sampling (quick ~275 cases incl. ~30 histories, thorough ~4600 incl. ~510 histories; boundary shapes, single-deviation stubs and boundary histories always included).",
     "technique": "Lean 4 proof over a hand-written model + T-obj wiring extraction from the real lowering + independent oracle",
     "design_ref": "DESIGN.md §5 C26",
     "ready": True,
@@ -105,18 +111,18 @@ def _install_shims():
 
 
 # ------------------------------------------------------------------ case -> circuit
-def build_circuit(case):
-    from pytket import Bit, Circuit, Qubit
+def apply_desc(c, desc, from_q=0, from_b=0, from_op=0):
+    """add the units/ops of `desc` from the given positions on to the pytket circuit object `c`"""
+    from pytket import Bit, Qubit
     from sympy import Symbol
 
-    c = Circuit()
-    qs = [Qubit(n, i) for n, i in case["qubits"]]
-    bs = [Bit(n, i) for n, i in case["bits"]]
-    for q in qs:
+    qs = [Qubit(n, i) for n, i in desc["qubits"]]
+    bs = [Bit(n, i) for n, i in desc["bits"]]
+    for q in qs[from_q:]:
         c.add_qubit(q)
-    for b in bs:
+    for b in bs[from_b:]:
         c.add_bit(b)
-    for op in case["ops"]:
+    for op in desc["ops"][from_op:]:
         if op[0] == "H":
             c.H(qs[op[1]])
         elif op[0] == "CX":
@@ -133,6 +139,50 @@ def build_circuit(case):
         else:
             raise AssertionError(op)
     return c
+
+
+def build_circuit(case, c=None):
+    from pytket import Circuit
+
+    return apply_desc(Circuit() if c is None else c, case)
+
+
+def oracle_body(desc):
+    """quantum gates the circuit consists of, from the description: ['CX:1', 'H:2', ...]"""
+    cnt = {}
+    for op in desc["ops"]:
+        if op[0] != "SetBits":
+            cnt[op[0]] = cnt.get(op[0], 0) + 1
+    return [f"{k}:{v}" for k, v in sorted(cnt.items())]
+
+
+def _body_of(h, root):
+    """quantum ops (tket.quantum.*) below `root`: ['CX:1', 'H:2', ...]"""
+    import feed
+
+    cnt, st = {}, [root]
+    while st:
+        n = st.pop()
+        for k in h.children(n):
+            nm = feed.op_name(h[k].op)
+            if nm.startswith("tket.quantum."):
+                g = nm.split(".")[-1]
+                g = "Measure" if g.startswith("Measure") else g
+                cnt[g] = cnt.get(g, 0) + 1
+            st.append(k)
+    return [f"{k}:{v}" for k, v in sorted(cnt.items())]
+
+
+def inner_body(g, name):
+    """content of the circuit function that the outer function `name` calls"""
+    import hugr.ops as ops
+
+    h = g.hugr
+    outer = [n for n in h if isinstance(h[n].op, ops.FuncDefn) and h[n].op.f_name == name][0]
+    call = [k for k in h.children(outer) if isinstance(h[k].op, ops.Call)][0]
+    nin = len(h[call].op.instantiation.input)
+    tgt = list(h.linked_ports(call.inp(nin)))[0].node
+    return _body_of(h, tgt)
 
 
 def case_symbols(case):
@@ -332,6 +382,7 @@ def convert_info(c):
             "bits": lab(get("TKET1.bit_registers")),
             "outs": kinds,
             "n_in": len(op.inputs),
+            "body": _body_of(h, h.entrypoint),
         }
     except BaseException as e:  # noqa: BLE001
         return {"failed": type(e).__name__}
@@ -357,18 +408,21 @@ def _err_reply(e):
     return f"(crash {type(e).__name__})"
 
 
-def real_load(c, ua):
-    """-> (reply string, structure or None)"""
+def real_load(c, ua, name=NAME, defs=None):
+    """-> (reply string, structure or None); ids of created definitions are appended to `defs`"""
     import feed
     from guppylang import guppy
     from guppylang_internals.engine import ENGINE
 
     try:
-        d = guppy.load_pytket(NAME, c, use_arrays=ua)
+        d = guppy.load_pytket(name, c, use_arrays=ua)
+        if defs is not None:
+            defs.append(d.id)
         g = feed.lower(d)
         sig = sig_sx(ENGINE.checked[d.id].ty)
-        args, outs = read_wiring(g, NAME)
-        return sx(["ok", sig, args, outs]), {"sig": sig, "args": args[1:], "outs": outs[1:]}
+        args, outs = read_wiring(g, name)
+        body = inner_body(g, name)
+        return sx(["ok", sig, args, outs]), {"sig": sig, "args": args[1:], "outs": outs[1:], "body": body}
     except Unrecognised as e:
         return f"(unrecognised {_atom(e)})", None
     except BaseException as e:  # noqa: BLE001
@@ -519,7 +573,7 @@ def ret_leaves(ret):
     return ANN[ret]
 
 
-def stub_source(stub):
+def stub_source(stub, name=NAME):
     ps = []
     for i, (ann, owned) in enumerate(stub["params"]):
         if ann is None:
@@ -527,7 +581,7 @@ def stub_source(stub):
         else:
             ps.append(f"x{i}: {ann}" + (" @owned" if owned else ""))
     ret = "" if stub["ret"] is None else f" -> {stub['ret']}"
-    return f"@guppy.pytket(circ)\ndef {NAME}({', '.join(ps)}){ret}:\n" + BODIES[stub["body"]][0]
+    return f"@guppy.pytket(circ)\ndef {name}({', '.join(ps)}){ret}:\n" + BODIES[stub["body"]][0]
 
 
 def _sig_error(stub):
@@ -550,7 +604,7 @@ _REG = types.ModuleType("_c26_circs")
 sys.modules["_c26_circs"] = _REG
 
 
-def real_stub(c, stub):
+def real_stub(c, stub, name=NAME, defs=None):
     """-> (reply, structure or None)"""
     import feed
     from guppylang_internals.engine import ENGINE
@@ -564,8 +618,10 @@ def real_stub(c, stub):
     _REG.CURRENT = c
     m = None
     try:
-        m = feed.load(stub_source(stub), prelude=pre)
-        d = getattr(m, NAME)
+        m = feed.load(stub_source(stub, name), prelude=pre)
+        d = getattr(m, name)
+        if defs is not None:
+            defs.append(d.id)
         try:
             ENGINE.check(d.id)
         except GuppyError as e:
@@ -580,8 +636,8 @@ def real_stub(c, stub):
         st = {"sig": sig}
         try:
             g = feed.lower(d)
-            args, outs = read_wiring(g, NAME)
-            st.update(args=args[1:], outs=outs[1:], wiring=sx(["ok", sig, args, outs]))
+            args, outs = read_wiring(g, name)
+            st.update(args=args[1:], outs=outs[1:], wiring=sx(["ok", sig, args, outs]), body=inner_body(g, name))
         except Unrecognised as e:
             st["wiring"] = f"(unrecognised {_atom(e)})"
         except BaseException as e:  # noqa: BLE001
@@ -590,6 +646,7 @@ def real_stub(c, stub):
     except BaseException as e:  # noqa: BLE001
         return f"(crash {type(e).__name__})", None
     finally:
+        _REG.CURRENT = None
         if m is not None:
             feed.unload(m)
 
@@ -779,6 +836,112 @@ def boundary_stubs():
     return [{**base, "stub": {"params": [list(p) for p in ps], "ret": r, "body": b}} for ps, r, b in variants]
 
 
+def gen_extension(rng, desc):
+    """additions to a circuit description: always at least one new gate, often new units/symbols"""
+    qubits, bits = list(desc["qubits"]), list(desc["bits"])
+    add_q, add_b, ops = [], [], []
+    kinds = rng.sample(["gates", "measure", "qubit", "qreg", "symbol", "bitreg"], rng.choice([1, 1, 2, 3]))
+    for k in kinds:
+        if k == "qubit" and qubits:
+            n = rng.choice(sorted({m for m, _ in qubits}))
+            add_q.append([n, max(i for m, i in qubits + add_q if m == n) + 1])
+        elif k == "qreg":
+            free = [x for x in QNAMES if x not in {m for m, _ in qubits + add_q}]
+            if free:
+                add_q.append([rng.choice(free), 0])
+        elif k in ("measure", "bitreg"):
+            names = sorted({m for m, _ in bits + add_b})
+            if k == "measure" and names and rng.random() < 0.5:
+                n = rng.choice(names)
+                add_b.append([n, max(i for m, i in bits + add_b if m == n) + 1])
+            else:
+                free = [x for x in BNAMES if x not in names]
+                if free:
+                    add_b.append([rng.choice(free), 0])
+    nq, nb = len(qubits) + len(add_q), len(bits) + len(add_b)
+    if nq == 0:
+        add_q.append(["q", 0])
+        nq = 1
+    if "symbol" in kinds:
+        used = set(case_symbols(desc))
+        free = [x for x in SYMS if x not in used]
+        ops.append([rng.choice(["Rz", "Rx"]), [[1, rng.choice(free)]], rng.randrange(nq)])
+    if ("measure" in kinds or "bitreg" in kinds) and nb:
+        ops.append(["Measure", rng.randrange(nq), nb - 1])
+    for q in range(len(qubits), nq):
+        ops.append(["H", q])  # touch every new qubit
+    for _ in range(rng.choice([1, 1, 2, 3]) if not ops or "gates" in kinds else 0):
+        if nq >= 2 and rng.random() < 0.4:
+            a, b = rng.sample(range(nq), 2)
+            ops.append(["CX", a, b])
+        else:
+            ops.append(["H", rng.randrange(nq)])
+    return add_q, add_b, ops
+
+
+def gen_history(rng):
+    def fresh(min_q=True):
+        d = gen_circuit(rng, small=True, allow_stray=False)
+        return [d["qubits"], d["bits"], d["ops"]]
+
+    def ld(o, name):
+        return ["stub", o, name] if rng.random() < 0.2 else ["load", o, name, rng.random() < 0.5]
+
+    pat = rng.choice(["staged", "staged", "staged", "gc", "gc", "twice", "interleaved"])
+    ev = []
+    if pat == "staged":
+        a = fresh()
+        desc = {"qubits": list(a[0]), "bits": list(a[1]), "ops": list(a[2])}
+        ev += [["new", "A", *a], ld("A", "f0")]
+        for k in range(rng.choice([1, 1, 2])):
+            ext = gen_extension(rng, desc)
+            desc["qubits"] += ext[0]
+            desc["bits"] += ext[1]
+            desc["ops"] += ext[2]
+            ev += [["extend", "A", *ext], ld("A", rng.choice(["f0", f"f{k + 1}"]))]
+    elif pat == "gc":
+        ev += [["new", "A", *fresh()], ld("A", "f0"), ["del", "A"], ["new", "B", *fresh()], ld("B", rng.choice(["f0", "g0"]))]
+        if rng.random() < 0.5:
+            ev += [["del", "B"], ["new", "C", *fresh()], ld("C", "h0")]
+    elif pat == "twice":
+        ev += [["new", "A", *fresh()], ld("A", "f0"), ld("A", "f1")]
+        if rng.random() < 0.5:
+            ev.append(ld("A", "f0"))
+    else:
+        a, b = fresh(), fresh()
+        da = {"qubits": list(a[0]), "bits": list(a[1]), "ops": list(a[2])}
+        ext = gen_extension(rng, da)
+        ev += [["new", "A", *a], ["new", "B", *b], ld("A", "f0"), ld("B", "g0"), ["extend", "A", *ext],
+               ld("B", "g1"), ld("A", "f1")]
+    return {"kind": "history", "pattern": pat, "events": ev}
+
+
+def boundary_histories():
+    """explicit sessions (always run): staged loading of one object, identity reuse, double loading"""
+    q2, b2 = [["q", 0], ["q", 1]], [["c", 0], ["c", 1]]
+    H = []
+    for ua in (False, True):
+        H.append({"kind": "history", "pattern": "staged", "events": [
+            ["new", "A", q2, b2, [["H", 0], ["CX", 0, 1]]], ["load", "A", "prep", ua],
+            ["extend", "A", [], [], [["H", 1], ["Measure", 0, 0], ["Measure", 1, 1]]], ["load", "A", "full", ua]]})
+        H.append({"kind": "history", "pattern": "staged", "events": [
+            ["new", "A", [["z", 0]], [], [["H", 0]]], ["load", "A", "f", ua],
+            ["extend", "A", [["a", 0], ["z", 1]], [["m", 0]], [["Rz", [[1, "t"]], 1], ["Rx", [[1, "b"]], 2], ["Measure", 1, 0]]],
+            ["load", "A", "f", not ua], ["load", "A", "g", ua]]})
+    H.append({"kind": "history", "pattern": "staged", "events": [
+        ["new", "A", [["q", 0]], [], [["H", 0]]], ["stub", "A", "s1"],
+        ["extend", "A", [], [], [["H", 0], ["H", 0]]], ["stub", "A", "s2"],
+        ["extend", "A", [], [["c", 0]], [["Measure", 0, 0]]], ["stub", "A", "s3"]]})
+    H.append({"kind": "history", "pattern": "gc", "events": [
+        ["new", "A", [["q", 0]], [], [["H", 0]]], ["load", "A", "f", False], ["del", "A"],
+        ["new", "B", [["q", 0]], [], [["H", 0], ["H", 0], ["H", 0]]], ["load", "B", "f", False], ["del", "B"],
+        ["new", "C", [["q", 0], ["q", 1]], [["c", 0]], [["CX", 0, 1], ["Measure", 1, 0]]], ["load", "C", "g", True]]})
+    H.append({"kind": "history", "pattern": "twice", "events": [
+        ["new", "A", q2, [["c", 0]], [["CX", 1, 0], ["Measure", 0, 0]]], ["load", "A", "f0", False], ["load", "A", "f1", True],
+        ["load", "A", "f0", True], ["stub", "A", "f2"]]})
+    return H
+
+
 def _canon(case):
     return json.dumps(case, sort_keys=True, separators=(",", ":"))
 
@@ -795,6 +958,7 @@ def _cases(ctx):
         cases.append(ctx.replay_in["replay"]["case"])
     cases.extend(boundary_cases())
     cases.extend(boundary_stubs())
+    cases.extend(boundary_histories())
     rng = ctx.rng
     for _ in range(ctx.n(45, 1000)):
         base = gen_circuit(rng)
@@ -813,6 +977,8 @@ def _cases(ctx):
     for _ in range(ctx.n(8, 150)):
         base = gen_circuit(rng, small=True, allow_stray=False, degenerate=True)
         cases.append({"kind": "stub", "ua": False, **base, "stub": gen_stub(rng, base)})
+    for _ in range(ctx.n(20, 500)):
+        cases.append(gen_history(rng))
     return cases
 
 
@@ -829,7 +995,7 @@ def evaluate(case):
         reply, st = real_load(c, case["ua"])
         res["real"] = reply
         res["model_line"] = sx(["load", 1 if case["ua"] else 0, circ_sx(c), md, outs])
-        res["oracle"] = oracle_load(case, info, reply, st)
+        res["oracle"] = _with_body(oracle_load(case, info, reply, st), st, case)
     else:
         stub = case["stub"]
         reply, st = real_stub(c, stub)
@@ -843,13 +1009,119 @@ def evaluate(case):
             res["real2"] = st["wiring"]
             res["model_line2"] = sx(["load", 0, circ_sx(c), md, outs])
             if res["oracle"] == "ok" and "args" in st:
-                res["oracle"] = oracle_load({**case, "ua": False}, info, st["wiring"], st)
+                res["oracle"] = _with_body(oracle_load({**case, "ua": False}, info, st["wiring"], st), st, case)
             elif res["oracle"] == "ok" and not st["wiring"].startswith("(err compile"):
                 res["oracle"] = "accepted stub does not lower: " + st["wiring"]
     return res
 
 
+def _with_body(verdict, st, desc):
+    """besides the wiring, the inserted circuit function must consist of the circuit's current gates"""
+    if verdict == "ok" and st is not None and "body" in st and st["body"] != oracle_body(desc):
+        return f"the inserted circuit function has gates {st['body']}, the circuit has {oracle_body(desc)}"
+    return verdict
+
+
+def _loaded_sx(reply, st):
+    if st is None or "args" not in st:
+        return (st or {}).get("wiring", reply)
+    return sx(["ok", st["sig"], ["args", *st["args"]], ["outs", *st["outs"]], ["body", *st["body"]]])
+
+
+ID_REUSE = {"attempts": 0, "hits": 0}
+
+
+def exact_stub(desc):
+    nq, nb, ns = len(desc["qubits"]), len(desc["bits"]), len(case_symbols(desc))
+    ret = "None" if nb == 0 else "bool" if nb == 1 else "tuple[" + ", ".join(["bool"] * nb) + "]"
+    return {"params": [["qubit", False]] * nq + [["angle", False]] * ns, "ret": ret, "body": "ellipsis"}
+
+
+def evaluate_history(case):
+    """One session: circuit objects are created, loaded+lowered, extended, loaded again, deleted.
+    Every load is compared with the circuit object's description AT THAT MOMENT."""
+    import gc
+
+    from guppylang_internals.engine import DEF_STORE, ENGINE
+    from pytket import Circuit
+
+    objs, descs, defs, freed = {}, {}, {}, []
+    real, model, verdicts = [], [], []
+    for ev in case["events"]:
+        if ev[0] == "new":
+            _, o, qubits, bits, ops_ = ev
+            c = None
+            if freed:
+                # try to get an object with the identity of a deleted circuit
+                ID_REUSE["attempts"] += 1
+                keep = []
+                for _ in range(64):
+                    cand = Circuit()
+                    if id(cand) in freed:
+                        c = cand
+                        ID_REUSE["hits"] += 1
+                        break
+                    keep.append(cand)
+                del keep
+            descs[o] = {"qubits": list(qubits), "bits": list(bits), "ops": list(ops_)}
+            objs[o] = build_circuit(descs[o], c)
+            defs[o] = []
+        elif ev[0] == "extend":
+            _, o, qubits, bits, ops_ = ev
+            d = descs[o]
+            fq, fb, fo = len(d["qubits"]), len(d["bits"]), len(d["ops"])
+            d["qubits"] += qubits
+            d["bits"] += bits
+            d["ops"] += ops_
+            apply_desc(objs[o], d, fq, fb, fo)
+        elif ev[0] == "del":
+            o = ev[1]
+            for did in defs.pop(o):
+                DEF_STORE.raw_defs.pop(did, None)
+                DEF_STORE.frames.pop(did, None)
+            ENGINE.reset()
+            freed.append(id(objs[o]))
+            del objs[o], descs[o]
+            gc.collect()
+        elif ev[0] in ("load", "stub"):
+            o, name = ev[1], ev[2]
+            c, d = objs[o], descs[o]
+            ua = bool(ev[3]) if ev[0] == "load" else False
+            info = convert_info(c)  # a fresh conversion of the circuit as it is now
+            if ev[0] == "load":
+                reply, st = real_load(c, ua, name, defs[o])
+                verdict = oracle_load({"ua": ua, **d}, info, reply, st)
+            else:
+                reply, st = real_stub(c, exact_stub(d), name, defs[o])
+                if not reply.startswith("(accepted"):
+                    verdict = "the exact stub is not accepted: " + reply
+                elif "args" in (st or {}):
+                    verdict = oracle_load({"ua": False, **d}, info, st["wiring"], st)
+                else:
+                    verdict = "n/a" if (st or {}).get("wiring", "").startswith("(err compile") else "accepted stub does not lower"
+            verdicts.append(_with_body(verdict, st, d))
+            real.append(_loaded_sx(reply, st))
+            md = "none" if info.get("params") is None else ["m", *info["params"]]
+            model.append(sx(["load", id(c), 1 if ua else 0, circ_sx(c), md, ["o", *info.get("outs", [])],
+                             ["body", *info.get("body", [])]]))
+        else:
+            raise AssertionError(ev)
+        if ev[0] not in ("load", "stub"):
+            model.append("other")
+    bad = [f"load #{k}: {v}" for k, v in enumerate(verdicts) if v not in ("ok", "n/a")]
+    return {
+        "real": "(results " + " ".join(real) + ")" if real else "(results)",
+        "model_line": "(session " + " ".join(model) + ")",
+        "view_line": "(noop)",
+        "oracle": bad[0] if bad else ("n/a" if verdicts and all(v == "n/a" for v in verdicts) else "ok"),
+        "info": {},
+        "n_match": True,
+    }
+
+
 def _nontrivial(case):
+    if case["kind"] == "history":
+        return sum(1 for e in case["events"] if e[0] in ("load", "stub")) >= 2
     if case["kind"] == "stub":
         return True
     return len({n for n, _ in case["qubits"]}) >= 2 or len(case_symbols(case)) >= 2 or len(case["bits"]) >= 1
@@ -860,7 +1132,7 @@ def run_cases(ctx, cases, count=True):
     lines = []
     for case in cases:
         try:
-            r = evaluate(case)
+            r = evaluate_history(case) if case["kind"] == "history" else evaluate(case)
         except BaseException as e:  # noqa: BLE001
             r = {"real": f"(harness-error {type(e).__name__} {_atom(e)})", "oracle": "n/a", "model_line": "(noop)",
                  "view_line": "(noop)", "info": {}, "n_match": True}
@@ -876,6 +1148,8 @@ def run_cases(ctx, cases, count=True):
         kind = case["kind"] + (":arrays" if case.get("ua") else "") + ":" + real.strip("()").split(" ")[0]
         if real.startswith("(err"):
             kind = case["kind"] + (":arrays" if case.get("ua") else "") + ":" + real.strip("()")
+        if case["kind"] == "history":
+            kind = "history:" + case.get("pattern", "?")
         if count:
             ctx.count(case, nontrivial=_nontrivial(case), kind=kind)
         if r["oracle"] not in ("ok", "n/a"):
@@ -893,7 +1167,7 @@ def run_cases(ctx, cases, count=True):
             ctx.broke(f"correspondence Model/Pytket.lean vs pytket_circuits.py on {key}: real={real} model={m}")
         if "real2" in r and r["real2"] != m2:
             ctx.broke(f"correspondence (lowered stub) on {key}: real={r['real2']} model={m2}")
-        if view != "true":
+        if r["view_line"] != "(noop)" and view != "true":
             ctx.broke(f"assumption about pytket's unit/register order (Circ.viewOk) fails on {key}: {view}")
         if not r["n_match"]:
             ctx.broke(f"assumption n_qubits == len(qubits) fails on {key}")
@@ -909,6 +1183,7 @@ def run_cases(ctx, cases, count=True):
 def tie(ctx):
     _install_shims()
     run_cases(ctx, _cases(ctx))
+    ctx.extra["id_reuse"] = dict(ID_REUSE, note="history cases: a circuit object allocated after a deleted one; hits = same id() obtained")
 
 
 def search(ctx, why):
@@ -927,6 +1202,8 @@ def search(ctx, why):
     for _ in range(ctx.n(100, 400)):
         base = gen_circuit(rng, small=True, allow_stray=False)
         cases.append({"kind": "stub", "ua": False, **base, "stub": gen_stub(rng, base)})
+    for _ in range(ctx.n(60, 300)):
+        cases.append(gen_history(rng))
     run_cases(ctx, cases, count=False)
 
 
